@@ -340,6 +340,11 @@ def r4(ctx, cfg):
     if f is None:
         return
     ret = deep_peel(P.ret(f))
+    # (the 256-bit result narrowed back: `Decimal::try_from(reward - commission).expect(..)`)
+    while ret[0] == "call" and ret[1].rsplit("::", 1)[-1] in ("expect", "unwrap", "try_from", "try_into") and ret[2]:
+        ret = deep_peel(ret[2][0])
+        while ret[0] in ("ok", "some"):
+            ret = deep_peel(ret[1])
     # a shortcut for the factor that makes the whole product zero (`if stake.is_zero() { return Decimal::zero() }`) answers what the
     # formula would: accepted only under exactly that test on one of the formula's own numerator inputs
     zero_under = None
@@ -355,6 +360,10 @@ def r4(ctx, cfg):
         if all(oks):
             ret = deep_peel(rest[0])
             zero_under = True
+            while ret[0] == "call" and ret[1].rsplit("::", 1)[-1] in ("expect", "unwrap", "try_from", "try_into") and ret[2]:
+                ret = deep_peel(ret[2][0])
+                while ret[0] in ("ok", "some"):
+                    ret = deep_peel(ret[1])
     c = F.consts.get("staking::YEAR")
     year = 1
     for l in (c or {}).get("lits", []):
@@ -363,8 +372,23 @@ def r4(ctx, cfg):
     ctx.ob(R, "staking::YEAR", "YEAR=31536000", year == 31536000, "YEAR evaluates to %d" % year, sample="60*60*24*365")
 
     # normalise the origin tree to a product of factors: numerator set / denominator set, and (1 - commission)
-    def op(o):
+    def widen(o):
+        """see through conversions between the 128- and the 256-bit fixed point: `Decimal256::from(x)`, `x.into()`,
+        `Decimal::try_from(y).expect(..)` - the same number"""
         o = peel(o)
+        while True:
+            if o[0] in ("ok", "some"):
+                o = peel(o[1])
+            elif o[0] == "call" and o[1].rsplit("::", 1)[-1] in ("expect", "unwrap") and o[2]:
+                o = peel(o[2][0])
+            elif o[0] == "call" and len(o[2]) == 1 and o[1].rsplit("::", 1)[-1] in ("from", "into", "try_from", "try_into") and \
+                    ("Decimal" in (o[3] or o[1]) if len(o) > 3 else "Decimal" in o[1]):
+                o = peel(o[2][0])
+            else:
+                return o
+
+    def op(o):
+        o = widen(o)
         if o[0] == "call":
             n = o[1]
             for tr, sym in (("std::ops::Mul::mul", "*"), ("std::ops::Div::div", "/"), ("std::ops::Sub::sub", "-"), ("std::ops::Add::add", "+")):
@@ -373,12 +397,12 @@ def r4(ctx, cfg):
         return None, None
 
     def atom(o):
-        o = peel(o)
+        o = widen(o)
         if o[0] == "param":
             return o[2]
         if o[0] == "item":
             return o[1]
-        if o[0] == "call" and o[1].endswith("Decimal::from_ratio"):
+        if o[0] == "call" and o[1].endswith(("Decimal::from_ratio", "Decimal256::from_ratio")):
             return atom(o[2][0])
         if o[0] == "call" and o[1].endswith("Timestamp::seconds"):
             return atom(o[2][0])
